@@ -262,6 +262,8 @@ def _p_values(gamma, B_cdfs, rr_inv, T_lens, iq, nq, offset, results):
 		nt = uint64(nt)
 		results[i, 0] = 1
 		results[i, 1] = 0
+		results[i, 2] = 0
+		results[i, 3] = 0
 
 		if i <= iq or (i >= n and i <= (n + iq)):
 			total_offset += nt
@@ -285,7 +287,10 @@ def _p_values(gamma, B_cdfs, rr_inv, T_lens, iq, nq, offset, results):
 				if score == results[i, 1] and results[i, 2] >= overlap:
 					continue
 
-				results[i, 0] = B_cdfs[nt, uint64(score-1)]
+				if score > 0:
+					results[i, 0] = B_cdfs[nt, uint64(score-1)]
+				else:
+					results[i, 0] = 1
 				results[i, 1] = score
 				results[i, 2] = k - nq + 1
 				results[i, 3] = overlap
